@@ -148,16 +148,19 @@ Section Step.
   Definition on_list (s : lh) (id : N) (ops : list rop) : lh :=
     mkLH (lh_map s) (lupd (lh_lists s) id (fun r => (fst r, rrun adm chk (snd r) ops))) (lh_next s).
 
-  (* addStaticRemotes vpn addrs: resolver results := addrs; every admitted one is prepended under the node's own key *)
+  (* addStaticRemotes vpn addrs: the literals are Unmap()ed and kept as a set (NewHostnameResults); that set is the
+     resolver result, and every admitted member is prepended under the node's own key *)
+  Definition static_addrs (addrs : list ap) : list ap :=
+    nodup_keys ap_eqb (map (fun a => (unmap_addr (ap_addr a), ap_port a)) addrs).
   Definition static_ops (vpn : addr) (addrs : list ap) : list rop :=
-    RDns addrs ::
+    RDns (static_addrs addrs) ::
     flat_map (fun a =>
       if should_add c [vpn] (ap_addr a)
       then (match ap_fam a with
             | F4 => [RPre4 (cfg_self c) (ap_val a, ap_port a)]
             | F6 => [RPre6 (cfg_self c) (ap_val a / 18446744073709551616, ap_val a mod 18446744073709551616, ap_port a)]
             end)
-      else []) addrs.
+      else []) (static_addrs addrs).
   Definition add_static (s : lh) (e : addr * list ap) : lh :=
     let '(s1, id) := get_remote_list s [fst e] in on_list s1 id (static_ops (fst e) (snd e)).
   Definition lh_init : lh := fold_left add_static (cfg_static c) (mkLH [] [] 0).
